@@ -278,8 +278,7 @@ theorem sweep_fold_inv {cont : Bool} {sub : Sub} : ∀ (l : List Gen) (w : World
 /-- every generation defined so far is good (hypothesis of the `_partial` theorems; vacuous for `cont = true`) -/
 def OpGood (cont : Bool) (sub : Sub) : Op → Prop
   | .define ctx _ states events services su sd =>
-    ∀ i, GoodGen cont sub { id := i, ctx := ctx, states := states, events := events, services := services,
-                            startup := su, shutdown := sd }
+    ∀ i, GoodGen cont sub (mkGen i ctx states events services su sd)
   | _ => True
 
 /-- `started` generations are good -/
@@ -331,8 +330,10 @@ theorem applyOp_inv {cont : Bool} {sub : Sub} {w : World} (h : WInv sub w) (hgoo
   cases op with
   | define ctx name states events services su sd =>
     simp only [applyOp, setBind]
-    obtain ⟨h1, hb, hs, hn, hst⟩ := startGen_inv (sub := sub) h
-      { id := w.next, ctx := ctx, states := states, events := events, services := services, startup := su, shutdown := sd } rfl
+    generalize hg0 : mkGen w.next ctx states events services su sd = g0
+    have hid : (effective w g0).id = w.next := by
+      rw [← hg0]; unfold effective inert mkGen; split <;> rfl
+    obtain ⟨h1, hb, hs, hn, hst⟩ := startGen_inv (sub := sub) h (effective w g0) hid
     constructor
     · refine ⟨h1.tables, ?_, ?_, ?_⟩
       · exact h1.fresh
@@ -343,15 +344,18 @@ theorem applyOp_inv {cont : Bool} {sub : Sub} {w : World} (h : WInv sub w) (hgoo
         rcases hi with ⟨b, (⟨hb', _⟩ | rfl), hbi⟩ | ⟨s, hs', hsi⟩
         · obtain ⟨g', hg', hgi⟩ := h.live i ((refs_pos_iff w i).mpr (.inl ⟨b, hb', hbi⟩))
           exact ⟨g', by simp [hst, hg'], hgi⟩
-        · exact ⟨{ id := w.next, ctx := ctx, states := states, events := events, services := services,
-                   startup := su, shutdown := sd }, by simp [hst], hbi⟩
+        · exact ⟨effective w g0, by simp [hst], hbi⟩
         · obtain ⟨g', hg', hgi⟩ := h.live i ((refs_pos_iff w i).mpr (.inr ⟨s, hs', hsi⟩))
           exact ⟨g', by simp [hst, hg'], hgi⟩
     · intro g hg
       simp only [hst, List.mem_append, List.mem_singleton] at hg
       rcases hg with hg | rfl
       · exact hgood g hg
-      · exact hop w.next
+      · have hgood0 : GoodGen cont sub g0 := hg0 ▸ hop w.next
+        unfold effective
+        split
+        · exact .inr (by simp [inert])
+        · exact hgood0
   | del ctx name =>
     refine ⟨WInv_shrink h rfl rfl rfl ?_, hgood⟩
     intro i hi
